@@ -71,3 +71,69 @@ class Ctx:
 
 class Boom(Exception):
     pass
+
+
+class _Writer:
+    def __init__(self, fs, path, fail):
+        self.fs, self.path, self.buf, self.fail = fs, path, [], fail
+
+    def __enter__(self):
+        if self.fail:
+            raise PermissionError(self.path)
+        return self
+
+    def __exit__(self, *a):
+        if a[0] is None:
+            self.fs.files[self.path] = "".join(self.buf)
+            self.fs.writes.append((self.path, self.fs.files[self.path]))
+        return False
+
+    def write(self, s):
+        self.buf.append(s)
+        return len(s)
+
+    def writelines(self, lines):
+        for l in lines:
+            self.buf.append(l)
+
+
+class _Reader:
+    def __init__(self, text):
+        self.text = text
+
+    def __enter__(self):
+        return self
+
+    def __exit__(self, *a):
+        return False
+
+    def read(self, *a):
+        return self.text
+
+    def readlines(self):
+        # text-mode universal newlines: content here only uses "\n"
+        parts = self.text.split("\n")
+        out = [p + "\n" for p in parts[:-1]]
+        if parts[-1]:
+            out.append(parts[-1])
+        return out
+
+    def __iter__(self):
+        return iter(self.readlines())
+
+
+class FakeFS:
+    """In-memory text files behind an `open` replacement; records every write."""
+
+    def __init__(self, files: dict, unwritable: bool = False):
+        self.files = {str(k): v for k, v in files.items()}
+        self.writes = []
+        self.unwritable = unwritable
+
+    def open(self, path, mode="r", *a, **k):
+        p = str(path)
+        if "w" in mode or "a" in mode or "+" in mode:
+            return _Writer(self, p, self.unwritable)
+        if p not in self.files:
+            raise FileNotFoundError(p)
+        return _Reader(self.files[p])
